@@ -32,6 +32,9 @@ pub fn free_trapa<S: Src>(s: &mut S) {
     let len = u32::from_be_bytes(b_len);
     s.assume(len <= crate::harness::c14::LEN_MAX);
     let arg = c.cpu.er[1];
+    // the argument block does not overlap the TRAPA instruction itself (otherwise the length is not
+    // the bounded window content)
+    s.assume(c.code_disjoint(arg, 12) && arg <= 0xffffff);
     // the 12-byte argument block as three 4-byte windows (keeps every harness loop <= 8 iterations)
     c.window(0, arg, &b_fd);
     c.window(1, arg.wrapping_add(4), &b_buf);
@@ -43,13 +46,21 @@ pub fn free_trapa<S: Src>(s: &mut S) {
     std::mem::forget(c);
 }
 
-/// Instruction fetch with an arbitrary PC on the real `Bus` (classification only: fresh memory).
-pub fn free_fetch<S: Src>(s: &mut S) {
+/// Instruction fetch on the real `Bus` (classification only: fresh memory).  `mapped == true`: both
+/// fetched bytes are in mapped memory - must never panic.  `mapped == false` is the witness of the
+/// recorded defect KF_C15_FETCH_UNWRAP (`fetch` unwraps the bus result): it is EXPECTED to fail while the
+/// defect is open; it covers every unmapped PC.
+pub fn free_fetch<S: Src>(s: &mut S, mapped: bool) {
     let mut cpu = mk_cpu(s, 0);
     let pc = s.u32();
+    let a = pc & !1;
+    let both = crate::harness::mem::accessible(a) && crate::harness::mem::accessible(a.wrapping_add(1));
+    s.assume(both == mapped);
+    s.assume(pc != 0xffffffff && pc != 0xfffffffe); // pc + 2 stays a u32 (PC is a 24-bit quantity in every reachable state)
     cpu.vh_set_pc(pc);
     let _w = cpu.vh_fetch();
-    witness!(pc == 0x416900, "fetch at the load base");
+    witness!(when: mapped, pc == 0x416900, "fetch at the load base");
+    witness!(when: !mapped, pc == 0x600000, "fetch just above DRAM");
     std::mem::forget(cpu);
 }
 
@@ -57,6 +68,8 @@ pub fn free_fetch<S: Src>(s: &mut S) {
 pub fn free_interrupt<S: Src>(s: &mut S) {
     let mut c: Ctx = ih::begin(s, PC_RAM);
     let v = s.u8();
+    // only vectors a peripheral can request (the controller multiplies the u8 vector by 4)
+    s.assume(v <= 63);
     mem::seal(&mut c.cpu);
     let r = c.cpu.vh_interrupt(v);
     witness!(r.is_ok(), "accepted");
